@@ -18,6 +18,16 @@ CHECKS = {
          'All 1792 opcode slots x operand bytes x Opcodes option sets x addresses are put to Disassembler, traceutils.disassemble, opcodes.decode and z80.get_timing; TLC compares length, text and timing set with the algorithmic decode of the specification; simulator PC/T deltas are judged against the same specification.',
          'Operand bytes are sampled; slot space is complete. Instructions wrapping past 65535 are not yet in the generator.',
          'DESIGN.md §4 C07'),
+ 'C06': ('model_checking',
+         'TLA+ machine specification (Z80!StepInt); TLC validates lock-step traces of both implementation pairs recorded through trace.py\'s own loops, step by step',
+         'Generated programs run one instruction at a time on Simulator+CSimulator and CMIOSimulator+CCMIOSimulator via the real trace loops (Python loop / CSimulator.trace) with interrupts; TLC replays each trace against Z80!StepInt (instruction + frame interrupt) and requires bit-identical registers, memory diffs and port logs inside each pair; one-call vs per-instruction execution of the loop must coincide.',
+         'Programs are sampled (random + structured + 0xFFFF/frame-boundary edge programs); contended pair timing is not predicted here (C19); memory/port-log equality inside a pair is computed by the harness and passed to TLC as a flag; 128K lock-step not yet included.',
+         'DESIGN.md §4 C06'),
+ 'C08': ('model_checking',
+         'TLA+ Paging128 specification model-checked (lock, ROM, one-bank-per-write as invariants/action properties) + every recorded paging step of the real simulators validated as a Paging128 action by TLC',
+         'Exhaustive model check of the paging state machine; every (o7ffd state x port class x value) edge and random histories are driven through real OUT (C),r / OUT (n),A / OUTI / OUTD / OTIR / OTDR and LD (nn),A instructions on the four simulators (128K Memory + trace.Tracer) and through skoolutils.Memory; TLC validates each recorded step (o7ffd, tracer copy, CPU-visible and Python-visible page ids, one cell per physical page) as the corresponding spec action; register ranges, ROM immutability and T monotonicity are evaluated on single steps of all 1792 opcode slots.',
+         'Quick tier samples 6 of 69 values per edge; thorough uses all 256. One data cell per physical page stands for the bank contents.',
+         'DESIGN.md §4 C08'),
 }
 
 PENDING = {}
